@@ -30,6 +30,12 @@ def templates(tier, seed=0):
         obj = '{"a": 1, ' + ', '.join('"%s": @h%d@' % (k, 10 + i) for i, k in enumerate(keys)) + '}'
         ts.append({'name': 'collect-order-%d' % n, 'src': 'o := %s\n{a, ..rest} := o\nprint(rest)\nfor [k, v] in rest {\n    print(k)\n}\nprint(rest == {%s})\n{..all} := o\nprint(all == o)\n' % (obj, ', '.join('"%s": o.%s' % (k, k) for k in keys))})
     ts.append({'name': 'nested-collect-order', 'src': 'o := {"p": {"x": 1, "y": 2, "z": 3}, "q": 4, "r": 5}\n{"p": {x, ..pr}, ..top} := o\nprint(pr)\nprint(top)\nfn f({q, ..others}) {\n    return others\n}\nprint(f(o))\n'})
+    # keys and strings with quotes, backslashes, control and non-ASCII characters are written raw
+    from . import objects as _objects
+    ts += [dict(x) for x in _objects.templates(tier, seed) if x['name'] == 'special-keys']
+    ts.append({'name': 'raw-strings', 'src': 'print("q\\"q \\\\ b")\nprint(["q\\"q", "a\\\\b", "t\\x09t", "\u00e9\u20ac", "c\\x7fd", "r\\x0dr", "$\\$"])\nprint({"k": "v\\"v\\\\"})\nprint(@h10@)\n'})
+    # large outputs: a string longer than the usual stream buffers, with and without line breaks inside, alone and inside a container
+    ts.append({'name': 'large-output', 'src': 's := "x"\ni := 0\nwhile i < 11 {\n    s = s + s\n    i += 1\n}\nprint(s->len())\nprint("head\\n" + s)\nprint(s + "\\n" + s + "\\ntail")\nprint([s[:1030], @h10@])\nprint(s)\nprint("end")\n'})
     return ts
 
 def role(v):
